@@ -487,3 +487,16 @@ Theorem C01_end_to_end_register_exact : forall fuel dedup P c,
     exists out, Reg.reg_eval rc ins = Some out /\ output_exact fuel P (main_args P inp) out.
 Proof. exact end_to_end_register_exact. Qed.
 Print Assumptions C01_end_to_end_register_exact.
+
+(* the precedence theorem at TEXT level (Front/ScanPrint.v): the text of a well-formed expression
+   tree printed with minimal parentheses is scanned and parsed back to the tree (token locations
+   erased: the parser model ignores them) *)
+From GV Require Import Front.ScanPrint.
+
+Theorem C01_parser_reads_minimal_parentheses_text_as_the_tree : forall e,
+  wf_expr e -> Forall tok_printable (map kind (show_min e)) ->
+  exists ts' fuel, scan_text (show_text e) = Ok (STokens ts') /\
+                   map kind ts' = map kind (show_min e) /\
+                   parse_expr fuel (unloc ts') = Some (e, []).
+Proof. exact scan_parse_show_min. Qed.
+Print Assumptions C01_parser_reads_minimal_parentheses_text_as_the_tree.
